@@ -24,7 +24,7 @@ from re import (
     Pattern,
     search,
 )
-from string import whitespace
+from string import ascii_letters, digits
 from tomllib import loads as loads_toml
 from typing import Any, cast, ClassVar, BinaryIO
 from warnings import warn
@@ -966,9 +966,32 @@ class HandHistory(Iterable[State]):
         :return: a ``str`` object.
         """
 
+        def clean_string(value: str, multiline_status: bool = True) -> str:
+            if '\'' not in value and value.isprintable():
+                return f'\'{value}\''
+            elif (
+                    multiline_status
+                    and '\'\'\'' not in value
+                    and not value.endswith('\'')
+                    and value.isprintable()
+            ):
+                return f'\'\'\'{value}\'\'\''
+
+            characters = []
+
+            for character in value:
+                if ord(character) < 32 or ord(character) == 127:
+                    character = f'\\u{ord(character):04x}'
+                elif character in '\\"':
+                    character = '\\' + character
+
+                characters.append(character)
+
+            return '"' + ''.join(characters) + '"'
+
         def clean_key(key: str) -> str:
-            if set(key) & set(whitespace):
-                key = f'\'{key}\''
+            if not key or set(key) - set(ascii_letters + digits + '_-'):
+                key = clean_string(key, False)
 
             return key
 
@@ -988,13 +1011,10 @@ class HandHistory(Iterable[State]):
                 values = map(clean_value, value.values())
                 pairs = map(' = '.join, zip(keys, values))
                 cleaned_value = '{' + ', '.join(pairs) + '}'
+            elif isinstance(value, datetime.date):
+                cleaned_value = value.isoformat()
             elif isinstance(value, str):
-                if '\'' in value:
-                    delimiter = '\'\'\''
-                else:
-                    delimiter = '\''
-
-                cleaned_value = delimiter + value + delimiter
+                cleaned_value = clean_string(value)
             else:
                 cleaned_value = repr(value)
 
